@@ -32,6 +32,7 @@ fn data_of(d: &str) -> Bytes {
         "empty" => Bytes::new(),
         "one" => Bytes::from_static(b"<"),
         "bin" => Bytes::from((0u8..=255).collect::<Vec<u8>>()),
+        "huge" => Bytes::from((0..1_500_000u32).map(|i| (i * 13 + (i >> 9)) as u8).collect::<Vec<u8>>()),
         _ => Bytes::from((0..10_000u32).map(|i| (i * 7) as u8).collect::<Vec<u8>>()),
     }
 }
